@@ -456,6 +456,12 @@ fn adversarial(thorough: bool) -> Vec<Value> {
             "rule r { Resources.*.Properties.X !exists <<msg>> }\n",
             "rule r { Resources.*.Properties.X in [5, 6] }\n",
             "T { Properties.X == 1 }\n",
+            "rule r { Resources.*.Properties.X not in [2] }\n",
+            "rule r { Resources.*.Properties.X in Resources.*.Type }\n",
+            "rule r { Resources.*.Properties.X is_string }\n",
+            "rule r { Resources.*.Type == Resources.*.Properties.X }\n",
+            "rule r { Resources.*.Properties { X == 1 } }\n",
+            "let n = Resources.*.Properties.X\nrule r { %n == 1 }\n",
         ];
         for res in resources {
             for name in names {
@@ -520,6 +526,15 @@ fn adversarial(thorough: bool) -> Vec<Value> {
             "rule r { resource_changes[*].change.after.missing exists }\n",
             "rule r { resource_changes[*][*].change.after.name == \"x\" }\n",
             "rule r { planned_values.nosuch exists }\n",
+            "rule r { resource_changes[*].change.after.name in [\"x\", \"z\"] }\n",
+            "rule r { resource_changes[*].change.after.name not in [\"y\"] }\n",
+            "rule r { resource_changes[*].change.after.name in resource_changes[*].address }\n",
+            "rule r { resource_changes[*].change.after.name !exists <<m>> }\n",
+            "rule r { resource_changes[*].change.after.name is_int }\n",
+            "rule r { resource_changes[*].address == resource_changes[*].change.after.name }\n",
+            "rule r { variables.v == resource_changes[*].change.after.name }\n",
+            "rule r { resource_changes[*].change.after { name == \"x\" } }\n",
+            "let n = resource_changes[*].change.after.name\nrule r { %n == \"x\" }\n",
         ];
         let mut docs: Vec<String> = vec![];
         for e in entries {
